@@ -187,6 +187,11 @@ pub fn from_impls(m: &Model, ctx: &mut Ctx, rule: &str) {
                     Some(Val::Str(t)) => Some(Ok(Val::Ctor("Ok".into(), vec![Val::Tuple(vec![Val::Unit, Val::Sym(t.clone())])], Map::new()))),
                     _ => None,
                 },
+                // a helper that answers with the declared payload type of the alternative (here: the symbol standing for it)
+                ".choice_option_type" | ".option_type" | ".variant_type" => match a.get(1) {
+                    Some(Val::Ctor(_, _, fl)) => match fl.get("ty") { Some(Val::Str(t)) => Some(Ok(Val::Ctor("Ok".into(), vec![Val::Sym(t.clone())], Map::new()))), _ => None },
+                    _ => None,
+                },
                 ".to_rust_enum_identifier" => match a.get(1) { Some(Val::Str(n)) => Some(Ok(Val::Sym(n.clone()))), _ => None },
                 "choice_from_impl_template" => {
                     log.borrow_mut().push(match a.get(2) { Some(Val::Sym(t)) | Some(Val::Str(t)) => t.clone(), o => format!("{:?}", o.map(|x| x.show())) });
@@ -551,11 +556,14 @@ C01.defined: wherever constraints_and_type_name renders a component with the `<P
     fixed_values(m, ctx, "C01.fixed");
     instance_of(m, ctx, "C01.instanceof");
     collisions(m, ctx, "C01.collide");
+    // two enumerals with one number are two variants with one discriminant (E0081): the numbering analysis lives with C14
+    borrow(ctx, "C14", "C14.num", "C01.discr", &mut |sub| crate::rules::c14::run(m, sub));
     // names that are referred to are the names that are generated (shared with C02.defname)
     crate::rules::c02::defname(m, ctx, "C01.defname");
     // the type of a component and the type of its DEFAULT function / value are chosen by two selectors (shared with C06.agree)
     crate::rules::c06::agree(m, ctx, "C01.agree");
     from_impls(m, ctx, "C01.fromimpl");
+    crate::rules::c19::from_payload(m, ctx, "C01.frompayload");
     import_lists(m, ctx, "C01.imports");
 }
 
